@@ -356,10 +356,13 @@ def gen_stack_h(rng):
     inner_pool = ['a', 'b', 'c']
     cols, labels = [], []
     nr = rng.randint(1, 3)
+    if rng.random() < 0.4:
+        # three levels (two remain): middle labels in different relative orders under different outer labels, ragged below them
+        outers = [(o, m) for o in outers[:2] for m in rng.sample(['x', 'y', 'z'], rng.randint(1, 3))]
     for o in outers:
         kind = rng.choice(['U', 'U', 'i', 'f'])
         for u in rng.sample(inner_pool, rng.randint(1, 3)):
-            labels.append(['t', [['s', o], ['s', u]]])
+            labels.append(['t', ([['s', o[0]], ['s', o[1]]] if isinstance(o, tuple) else [['s', o]]) + [['s', u]]])
             if kind == 'U':
                 w = rng.choice([1, 1, 6])
                 vals = [['s', rng.choice(['B', 'R', 'x'])] if w == 1 else ['s', rng.choice(['Berlin', 'Roma', 'q r st'])] for _ in range(nr)]
@@ -376,9 +379,9 @@ def gen_stack_h(rng):
 
 def gen_case(rng):
     q = rng.random()
-    if q < 0.04:
+    if q < 0.05:
         return gen_stack_h(rng), None
-    if q < 0.08:
+    if q < 0.09:
         return gen_unstack3(rng), None
     cs = gen_pivot(rng) if q < 0.4 else gen_join(rng) if q < 0.7 else gen_reshape(rng)
     lay = C.rand_layout(rng, realise(cs['f']))
